@@ -223,7 +223,13 @@ func genC11Case(t *rapid.T) *C11Case {
 	}
 	n := rapid.IntRange(2, 10).Draw(t, "poolSize")
 	for i := 0; i < n; i++ {
-		switch rapid.IntRange(0, 5).Draw(t, "specKind") {
+		switch rapid.IntRange(0, 7).Draw(t, "specKind") {
+		case 6, 7: // one catalogue rule with several argument / value variants
+			rule := rapid.SampledFrom(c05RuleNames).Draw(t, "familyRule")
+			for j := rapid.IntRange(2, 4).Draw(t, "familySize"); j > 0; j-- {
+				sc, _ := genC05CaseFor(t, rule)
+				c.Pool = append(c.Pool, &Call{V: sc})
+			}
 		case 0, 1: // synthesised multi-tag type, several tags / overrides / per-call functions on the same type
 			g, ty := genMultiTagType(t, mg, rapid.IntRange(0, 2).Draw(t, "depth"))
 			k := rapid.IntRange(1, 3).Draw(t, "variants")
